@@ -60,10 +60,10 @@ class GuardFlow(flow.Analysis):
         return state
 
 
-def rule_r3(chk):
+def rule_r3(chk, rid="C16-R3"):
     """block-triangular prefetch: order of accumulation and equation/quantity symmetry"""
     from ..core import squash, assignments, assign_value, single_return, tuple_names
-    chk.rule("C16-R3", "prefetch peels equations with one unknown (solved first) and quantities in one equation (solved last) recursively: "
+    chk.rule(rid, "prefetch peels equations with one unknown (solved first) and quantities in one equation (solved last) recursively: "
              "inner 'first' results are appended AFTER the outer ones, inner 'last' results are placed BEFORE the outer ones; every "
              "statement on an eids list has the identical twin on the qids list; blaze orders first + inner + last and pairs "
              "eids/qids positionally; an inner block closes when no later quantity occurs in its equations", floor=10)
@@ -73,9 +73,9 @@ def rule_r3(chk):
     for kind in ("eids", "qids"):
         a = [squash(x.value) for x in assignments(f, f"{kind}_first") if "_next" in squash(x.value)]
         b = [squash(x.value) for x in assignments(f, f"{kind}_last") if "_next" in squash(x.value)]
-        chk.ob("C16-R3", f"incidences.blazer.prefetch[{kind}_first order]", a == [f"{kind}_first+{kind}_first_next"] if a else None,
+        chk.ob(rid, f"incidences.blazer.prefetch[{kind}_first order]", a == [f"{kind}_first+{kind}_first_next"] if a else None,
                f"{kind}_first = {a}: outer first-blocks precede the ones found deeper", bm.loc(f))
-        chk.ob("C16-R3", f"incidences.blazer.prefetch[{kind}_last order]", b == [f"{kind}_last_next+{kind}_last"] if b else None,
+        chk.ob(rid, f"incidences.blazer.prefetch[{kind}_last order]", b == [f"{kind}_last_next+{kind}_last"] if b else None,
                f"{kind}_last = {b}: last-blocks found deeper precede the outer ones (they may be inputs to them)", bm.loc(f))
     for q in ("prefetch", "blaze", "sequentialize_strictly", "_generate_inner_blocks"):
         g = bm.func(q)
@@ -83,27 +83,27 @@ def rule_r3(chk):
         e_st = sorted(squash(n) for n in ast.walk(g) if isinstance(n, ast.Assign) and "eids" in squash(n.targets[0]) and "qids" not in squash(n))
         q_st = sorted(squash(n).replace("qids", "eids").replace("shape[1]", "shape[0]") for n in ast.walk(g)
                       if isinstance(n, ast.Assign) and "qids" in squash(n.targets[0]) and "eids" not in squash(n))
-        chk.ob("C16-R3", f"incidences.blazer.{q}[eids/qids twins]", e_st == q_st,
+        chk.ob(rid, f"incidences.blazer.{q}[eids/qids twins]", e_st == q_st,
                f"{len(e_st)} statement(s) on eids each have the same statement on qids" if e_st == q_st else
                f"asymmetric: {sorted(set(e_st) ^ set(q_st))[:2]}", bm.loc(g))
     bl = bm.func("blaze")
     ok = squash(assignments(bl, "eids")[-1].value) == "eids_first+eids_inner+eids_last" and squash(assign_value(bl, "out_blocks")) == "first_blocks+inner_blocks+last_blocks"
-    chk.ob("C16-R3", "incidences.blazer.blaze[order]", ok, "first blocks, then the simultaneous core, then last blocks", bm.loc(bl))
+    chk.ob(rid, "incidences.blazer.blaze[order]", ok, "first blocks, then the simultaneous core, then last blocks", bm.loc(bl))
     fb, lb = assign_value(bl, "first_blocks"), assign_value(bl, "last_blocks")
     ok = fb is not None and lb is not None and "Block((eid,),(qid,))foreid,qidinzip(eids_first,qids_first)" in squash(fb) \
         and "Block((eid,),(qid,))foreid,qidinzip(eids_last,qids_last)" in squash(lb)
-    chk.ob("C16-R3", "incidences.blazer.blaze[singleton pairing]", ok, "k-th first/last equation is paired with the k-th first/last quantity", bm.loc(bl))
+    chk.ob(rid, "incidences.blazer.blaze[singleton pairing]", ok, "k-th first/last equation is paired with the k-th first/last quantity", bm.loc(bl))
     gi = bm.func("_generate_inner_blocks")
     bs = assign_value(gi, "block_size")
     ok = bs is not None and "ifnotim[:i,i:].any()" in squash(bs) and "range(1,im.shape[0]+1)" in squash(bs)
-    chk.ob("C16-R3", "incidences.blazer._generate_inner_blocks[block closes]", ok if bs is not None else None,
+    chk.ob(rid, "incidences.blazer._generate_inner_blocks[block closes]", ok if bs is not None else None,
            "smallest i with no incidence of equations 0..i-1 on quantities i.. (block-triangular from below)", bm.loc(gi))
     pf, pl = bm.func("_prefetch_first"), bm.func("_prefetch_last")
     ok = "sum_in_rows=im.sum(axis=1)" in squash(pf) and "_np.where(sum_in_rows==1)" in squash(pf) and "sum_in_columns=im.sum(axis=0)" in squash(pl) and "_np.where(sum_in_columns==1)" in squash(pl)
-    chk.ob("C16-R3", "incidences.blazer[_prefetch_first/_last criteria]", ok, "first: equations with exactly one unknown; last: quantities occurring in exactly one equation", bm.loc(pf))
+    chk.ob(rid, "incidences.blazer[_prefetch_first/_last criteria]", ok, "first: equations with exactly one unknown; last: quantities occurring in exactly one equation", bm.loc(pf))
     for g, order in ((pf, ("eids_first", "qids_first", "eids_rem", "qids_rem", "im")), (pl, ("eids_last", "qids_last", "eids_rem", "qids_rem", "im"))):
         ok = tuple(tuple_names(single_return(g)) or ()) == order
-        chk.ob("C16-R3", f"incidences.blazer.{g.name}[return order]", ok, f"returns {tuple_names(single_return(g))}", bm.loc(g))
+        chk.ob(rid, f"incidences.blazer.{g.name}[return order]", ok, f"returns {tuple_names(single_return(g))}", bm.loc(g))
 
 
 def run(chk):
